@@ -235,6 +235,8 @@ def check_random(chk, tu):
                     size = a[1]
                     s0 = pe.strip_casts(size) if is_sym(size) else size
                     bound = size if isinstance(size, int) else known_le.get(s0)
+                    if bound is None and is_sym(s0) and s0.op == '%' and len(s0.args) == 2 and isinstance(s0.args[1], int) and s0.args[1] > 0:
+                        bound = s0.args[1] - 1          # x % C < C for the unsigned lengths used here
                     if bound is None or bound > GETENTROPY_MAX:
                         over.append((size, l, p.cond_text()[:100]))
         chk.require(n_calls >= 1, 'random_get never calls getentropy (HAS_GETENTROPY build)')
